@@ -17,7 +17,7 @@ import numpy as np
 from . import common, gen
 
 ID = "C01"
-LEAN_MODULES = ["DclabModel.Properties.C01"]
+LEAN_MODULES = ["DclabModel.Properties.C01", "DclabModel.Gen.MetaTable"]
 RULE = ("seeded write histories: CHUNK_SIZE_BYTES in {1, 1920, 5376, 19200, 2^20}; rounds of N_j "
         "events (sum up to 3*chunk+2; plus every composition of 8 events appended to 7 with chunk size "
         "10 in thorough, a sample of the compositions of 5 in quick) written feature by feature in "
@@ -35,7 +35,15 @@ RULE = ("seeded write histories: CHUNK_SIZE_BYTES in {1, 1920, 5376, 19200, 2^20
         "through a seeded sequence of 2-7 access patterns per feature in random order (full, slices "
         "with steps, positive/negative ints, boolean masks, np.asarray, np.asarray/np.array with an "
         "explicit narrower or wider dtype, modified copies; contours and traces by int and slice), "
-        "each compared with the same operation on the written data. distinct = distinct histories in which some n-d dataset received >= 2 calls "
+        "each compared with the same operation on the written data. Metadata: 60 % of the later "
+        "store_metadata calls come from a pool of 14 keys with alternative values — numerically equal "
+        "values of another type (True / 1 / 1.0, 7 / 7.0 / '7'), signed zeros, case variants, a stale "
+        "'experiment:event count' — and re-write a key written earlier in the history with p = 0.6; "
+        "20 % of the follow-up phases are writer sessions (append / replace) that store NO event data, "
+        "only metadata (always including an event count or the complete base metadata), logs and "
+        "tables. Every metadata value must come back in the documented type class of its key "
+        "(bool / int / float / str; floats bit-wise), the event count must equal the stored events. "
+        "distinct = distinct histories in which some n-d dataset received >= 2 calls "
         "and ends beyond one chunk, or a log outgrew its width, or a contour group was written by "
         ">= 2 writer objects.")
 TRUSTED_BASE = [
@@ -43,6 +51,10 @@ TRUSTED_BASE = [
     "fixed-length strings are NUL-padded and cut at their width), numpy dtype casts (payloads are "
     "generated representable in the stored dtype), zstd/fletcher32 filters",
     "row payloads are abstract tokens in the model; the harness compares the bytes of every row",
+    "the metadata part of the driver uses the committed key table lean/DclabModel/Gen/MetaTable.lean "
+    "(regenerated and re-proved by ./check C11) and the converter / HDF5 type-map model of "
+    "Model/Meta.lean; the documented type class of the generated keys is a hand-written table in "
+    "the harness (DOC_TYPE), independent of the code under test",
     "tree under test must contain the repairs of findings F01 (write_text, branch fix-F01) and F41 "
     "(event count of a file whose first object is the trace group, branch fix-F41); on a tree "
     "without them the check reports the F01 / F41 input as VIOLATION",
@@ -52,10 +64,17 @@ ASSUMPTIONS = [
     "all calls for one feature use one row shape/dtype (h5py rejects anything else)",
 ]
 NOT_PROVED = [
-    "metadata values/types (C11) and HDF5 attributes CLASS/IMAGE_* are checked by the harness "
-    "only (correspondence-only); of the metadata only the software-version chain is modelled",
+    "HDF5 attributes CLASS/IMAGE_* are checked by the harness only (correspondence-only); the "
+    "metadata model (Model/WriterMeta.lean) covers scalar values of store_metadata, reset and the "
+    "event count on exit; that parse_config(conv) returns the converted value unchanged is C11's "
+    "storeLoad_roundtrip, not repeated here; signed zeros do not exist in the model's floats "
+    "(exact rationals) and are judged by the Python oracle only; the data-derived keys roi size / "
+    "samples per event / channel count are C11's rectify model; a converter error inside "
+    "store_metadata (entries before it stay written) is modelled but never generated",
     "the reader cache model (access_order_irrelevant) abstracts slicing/indexing into per-access "
     "conversions; the concrete patterns are exercised by the harness",
+    "tables: the dict transposition and the (rows, 1) / (rows,) shapes are modelled "
+    "(Model/WriterTable.lean), the float64 column dtype and compound layout are not",
     "row shapes and dtypes are outside the Lean model (tokens); stored dtypes uint32/uint64/uint8/"
     "float64/int16 are asserted by the harness",
     "datasets produced by rtdc_copy are not appendable (no maxshape): appending after "
@@ -191,6 +210,12 @@ def gen_history(rng, thorough):
     trace_names = rng.sample(TRACES, rng.randint(1, 3))
     ops = []
     tok = [100]
+    mwritten = set()
+
+    def some_meta(force_count=False):
+        if force_count or rng.random() < 0.6:
+            return gen_meta(rng, mwritten, force_count)
+        return rng.choice(META_EXTRA)
 
     def fresh(n):
         tok[0] += n
@@ -200,7 +225,7 @@ def gen_history(rng, thorough):
         m = mode or rng.choice(["append", "append", "append", "reset" if not ops else "append"])
         ops.append(["open", m, rng.random() < 0.15 and m != "reset"])
         if ops[:-1] and m != "reset" and rng.random() < 0.3:
-            ops.append(["meta", rng.choice(META_EXTRA)])     # partial sections on a later writer
+            ops.append(["meta", some_meta()])     # partial sections on a later writer
 
     def data_ops(toks_of, order):
         out = []
@@ -220,8 +245,8 @@ def gen_history(rng, thorough):
                 out.append(["feat", f, toks_of(f), style])
         return out
 
-    def side_ops():
-        r = rng.random()
+    def side_ops(no_data=False):
+        r = rng.random() * (0.85 if no_data else 1.0)
         if r < 0.5:
             name = rng.choice(["log-a", "verif_log", "dclab-x"])
             k = rng.choice([0, 1, 1, 2, 3, 6])
@@ -236,7 +261,7 @@ def gen_history(rng, thorough):
             return [["table", name, rng.choice(["dict", "rec"]), cols,
                      [fresh(len(cols)) for _ in range(nr)]]]
         if r < 0.85:
-            return [["meta", rng.choice(META_EXTRA)]]
+            return [["meta", some_meta()]]
         f = rng.choice([x for x in feats if x not in ("trace", "contour")])
         return [["feat", f, [], 0]]     # rejected: empty data (append mode only)
 
@@ -296,6 +321,17 @@ def gen_history(rng, thorough):
             ops.append(["meta", rng.choice(["base", "base", "base-nover"])])
             n_now = rounds(rng.randint(1, nmax))
             ops.append(["close"])
+        elif r < 0.8:
+            # a session that stores no event data: only metadata / logs / tables (e.g. metadata
+            # taken over from another measurement, with that measurement's event count)
+            open_(rng.choice(["append", "append", "replace"]))
+            sess = []
+            for _ in range(rng.randint(0, 3)):
+                sess.extend(side_ops(no_data=True))
+            sess.insert(rng.randint(0, len(sess)),
+                        ["meta", some_meta(True) if rng.random() < 0.7 else base_meta_op(rng)])
+            ops.extend(sess)
+            ops.append(["close"])
         else:
             open_("append")
             n_now += rounds(rng.randint(1, max(1, nmax - n_now) if nmax > n_now else 3))
@@ -344,6 +380,157 @@ META_EXTRA = [
     {"setup": {"software version": "  Other Tool 7 |  | dclab 0.64.0"}},
     {"experiment": {"run index": 3}, "imaging": {"pixel size": 0.5}},
 ]
+
+
+# documented type of every metadata key the generator writes (dclab/definitions/meta_const.py,
+# read by hand; the harness does not ask the code under test what the type should be)
+DOC_TYPE = {
+    ("experiment", "date"): "str", ("experiment", "event count"): "int",
+    ("experiment", "run index"): "int", ("experiment", "sample"): "str",
+    ("experiment", "time"): "str",
+    ("imaging", "flash device"): "str", ("imaging", "flash duration"): "float",
+    ("imaging", "frame rate"): "float", ("imaging", "pixel size"): "float",
+    ("imaging", "roi position x"): "int", ("imaging", "roi position y"): "int",
+    ("online_contour", "bin area min"): "int", ("online_contour", "no absdiff"): "bool",
+    ("online_contour", "bin threshold"): "int",
+    ("qpi", "scale to filter"): "boolfloat", ("qpi", "filter size"): "float",
+    ("qpi", "invert phase"): "bool",
+    ("setup", "channel width"): "float", ("setup", "chip region"): "lcstr",
+    ("setup", "flow rate"): "float", ("setup", "flow rate sample"): "float",
+    ("setup", "flow rate sheath"): "float", ("setup", "identifier"): "str",
+    ("setup", "medium"): "str", ("setup", "module composition"): "str",
+    ("setup", "temperature"): "float",
+}
+
+# keys with alternative values: numerically equal values of different type, signed zeros,
+# case variants, a stale event count (metadata taken over from another measurement)
+META_TYPED = [
+    ("qpi", "scale to filter", [True, 1.0, False, 0.0, 2.5, 1, 0.5]),
+    ("qpi", "filter size", [0.5, 1, 1.0]),
+    ("qpi", "invert phase", [True, False, 1, 0.0]),
+    ("user", "verif key", [7, 7.0, True, 1, 1.0, -0.0, 0.0, 0, False, "7", "1"]),
+    ("user", "other", ["text", "Text", "größe", 2, 2.0]),
+    ("setup", "temperature", [23.5, 23, 23.0, 0.0, -0.0]),
+    ("setup", "chip region", ["channel", "Channel", "reservoir"]),
+    ("setup", "flow rate", [0.04, 0.16, 1]),
+    ("online_contour", "no absdiff", [True, False, 1, 0]),
+    ("online_contour", "bin area min", [25, 25.0, 26, True]),
+    ("experiment", "run index", [3, 3.0, 4, 1, True]),
+    ("experiment", "event count", [0, 1, 5, 17, 10 ** 6]),
+    ("experiment", "sample", ["verif", "größe µm ✓", "7"]),
+    ("imaging", "pixel size", [0.5, 0.34, 1]),
+]
+
+
+def gen_meta(rng, written, force_count=False):
+    """a metadata dict from META_TYPED; with p = 0.6 a key written earlier in this history is
+    written again (same value, an ==-equal value of another type, or a different one)"""
+    picks = []
+    again = [e for e in META_TYPED if (e[0], e[1]) in written]
+    if again and rng.random() < 0.6:
+        picks.append(rng.choice(again))
+    for _ in range(rng.choice([0, 1, 1, 2])):
+        picks.append(rng.choice(META_TYPED))
+    if force_count or not picks:
+        picks.append(META_TYPED[11] if force_count else rng.choice(META_TYPED))
+    m = {}
+    for sec, key, alts in picks:
+        m.setdefault(sec, {})[key] = rng.choice(alts)
+        written.add((sec, key))
+    return m
+
+
+def doc_value(sec, key, val):
+    """the value a reader must see: the written value in the documented type of the key
+    (user section: as written); None = key not in the table"""
+    if sec == "user":
+        return val
+    kind = DOC_TYPE.get((sec, key))
+    if kind is None:
+        return None
+    if kind == "str":
+        return str(val)
+    if kind == "lcstr":
+        return str(val).lower()
+    if kind == "float":
+        return float(val)
+    if kind == "int":
+        return int(float(val))
+    if kind == "bool":
+        return bool(float(val))
+    if kind == "boolfloat":
+        return bool(val) if isinstance(val, bool) or val == 0 else float(val)
+    return None
+
+
+def meta_canon(v):
+    """(type class, exact value) — bool / int / float / str are different classes, floats are
+    compared bit-wise (signed zero)"""
+    if isinstance(v, (bool, np.bool_)):
+        return ("bool", bool(v))
+    if isinstance(v, (int, np.integer)):
+        return ("int", int(v))
+    if isinstance(v, (float, np.floating)):
+        return ("float", float(v).hex())
+    if isinstance(v, bytes):
+        return ("bytes", v)
+    if isinstance(v, str):
+        return ("str", v)
+    return (type(v).__name__, repr(v))
+
+
+# ---- metadata values on the line protocol (same notation as Drive/C11.lean) ----------------
+NOT_IN_MODEL = {("setup", "software version"),            # verRun (vmeta line)
+                ("imaging", "roi size x"), ("imaging", "roi size y"),   # rectify (C11 model)
+                ("fluorescence", "samples per event"), ("fluorescence", "channel count")}
+
+
+def cps(text):
+    return ".".join(str(ord(c)) for c in text)
+
+
+def enc_float(x):
+    x = float(x)
+    if x != x:
+        return "nan"
+    if x in (float("inf"), float("-inf")):
+        return "+inf" if x > 0 else "-inf"
+    p, q = x.as_integer_ratio()
+    return str(p) if q == 1 else f"{p}/{q}"
+
+
+def enc_val(v):
+    """Python value -> protocol word; numpy scalars get capital tags (what h5py hands back)"""
+    if isinstance(v, bytes):
+        try:
+            v = v.decode("utf-8")
+        except Exception:
+            return "?"
+    if isinstance(v, np.bool_):
+        return "B:%d" % bool(v)
+    if isinstance(v, np.integer):
+        return "I:%d" % int(v)
+    if isinstance(v, np.floating):
+        return "F:" + enc_float(v)
+    if isinstance(v, bool):
+        return "b:%d" % v
+    if isinstance(v, int):
+        return "i:%d" % v
+    if isinstance(v, float):
+        return "f:" + enc_float(v)
+    if isinstance(v, str):
+        return "s:" + cps(v)
+    return "?"
+
+
+def meta_entries(m):
+    """the entries of a metadata dict in iteration order, without the keys outside the model"""
+    return [(sec, key, val) for sec, kv in m.items() for key, val in kv.items()
+            if (sec, key) not in NOT_IN_MODEL]
+
+
+def base_meta_op(rng):
+    return rng.choice(["base", "base-nover"])
 
 
 def base_meta(which):
@@ -673,6 +860,14 @@ def snapshot(path):
             d = h5["logs"][name]
             raw["logs"][name] = [bytes(x) for x in d[:]]
             raw["widths"][name] = d.dtype.itemsize
+        raw["tshapes"] = {name: "x".join(str(n) for n in h5["tables"][name].shape)
+                          for name in h5.get("tables", {})}
+        raw["attrs"] = {}
+        for k, v in h5.attrs.items():
+            try:
+                raw["attrs"][k] = enc_val(v)
+            except Exception:
+                raw["attrs"][k] = "?"
         raw["evcount"] = h5.attrs.get("experiment:event count")
         raw["evcount"] = None if raw["evcount"] is None else int(raw["evcount"])
     dc = snap["dc"]
@@ -702,6 +897,8 @@ def snapshot(path):
                                    for c in t.dtype.names}
             dc["meta"] = {sec: dict(ds.config[sec]) for sec in ds.config.keys()
                           if sec in dclab.definitions.CFG_METADATA or sec == "user"}
+            dc["cfgenc"] = {f"{sec}:{key}": enc_val(val) for sec, kv in dc["meta"].items()
+                            for key, val in kv.items()}
     except Exception as e:  # noqa
         dc["error"] = common.err_class(e) + f" {type(e).__name__}: {e}"[:200]
     return snap
@@ -791,8 +988,15 @@ def check_snapshot(spec, snap, out_err=None):
             got = dc["meta"].get(sec, {}).get(key, "<missing>")
             if sec in ("imaging",) and key.startswith("roi size"):
                 continue
-            if got != val or isinstance(got, str) != isinstance(val, str):
-                bad.append(("meta", f"{sec}:{key} = {got!r} ({type(got).__name__}), stored {val!r}"))
+            want = doc_value(sec, key, val)
+            if want is None:
+                # key without an entry in DOC_TYPE: value and str / non-str only
+                if got != val or isinstance(got, str) != isinstance(val, str):
+                    bad.append(("meta", f"{sec}:{key} = {got!r} ({type(got).__name__}), stored {val!r}"))
+            elif meta_canon(got) != meta_canon(want):
+                bad.append(("meta", f"{sec}:{key} read back as {got!r} ({type(got).__name__}), last "
+                                    f"written {val!r} ({type(val).__name__}); expected "
+                                    f"{want!r} ({meta_canon(want)[0]})"))
     ls = spec.lengths()
     if ls and len(set(ls)) == 1:
         if dc["len"] != ls[0] or raw["evcount"] != ls[0]:
@@ -811,8 +1015,8 @@ def model_lines(case):
             lines.append(f"open {op[1]}")
             tags.append("op")
         elif k == "close":
-            lines += ["close", "view", "spec", "raw"]
-            tags += ["op", "view", "spec", "raw"]
+            lines += ["close", "view", "spec", "raw", "attrs"]
+            tags += ["op", "view", "spec", "raw", "attrs"]
         elif k == "feat":
             f = op[1]
             sc = "s" if (f in FLOATS or f in UINTS or f == "index") else "n"
@@ -831,13 +1035,20 @@ def model_lines(case):
             lines.append(f"log {op[1]} " + " ".join(line_bytes(s) for s in ll))
             tags.append("op")
         elif k == "table":
-            lines.append(f"table {op[1]} {','.join(op[3])} "
-                         + " ".join(",".join(str(t) for t in row) for row in op[4]))
+            if op[2] == "dict":     # column-wise, as store_table fills its array
+                lines.append(f"tabled {op[1]} {','.join(op[3])} "
+                             + " ".join(",".join(str(row[i]) for row in op[4])
+                                        for i in range(len(op[3]))))
+            else:
+                lines.append(f"table {op[1]} {','.join(op[3])} "
+                             + " ".join(",".join(str(t) for t in row) for row in op[4]))
             tags.append("op")
         elif k == "meta":
             given = split_version(meta_of(op).get("setup", {}).get("software version", "") or "")
             lines.append("vmeta " + ("|".join(enc(e) for e in given) if given else "-"))
-            tags.append("op")
+            lines.append("meta " + " ".join(f"{cps(sec)}:{cps(key)}={enc_val(val)}"
+                                            for sec, key, val in meta_entries(meta_of(op))))
+            tags += ["op", "op"]
     return lines, tags
 
 
@@ -869,8 +1080,11 @@ def mirror_check(case, res, answers):
     for op in ops:
         if op[0] == "feat":
             feat_of[model_name(op[1])] = op[1]
+    mkeys = {"experiment:event count"}
     for op, out in zip(ops, outs):
-        n_model = len(op[1]) if op[0] == "trace" else 1
+        if op[0] == "meta":
+            mkeys |= {f"{sec}:{key}" for sec, key, _v in meta_entries(meta_of(op))}
+        n_model = len(op[1]) if op[0] == "trace" else 2 if op[0] == "meta" else 1
         m_out = "ok" if all(answers[ai + j] == "ok" for j in range(n_model)) else "err"
         ai += n_model
         if (out.split()[0]) != m_out:
@@ -878,13 +1092,16 @@ def mirror_check(case, res, answers):
         if op[0] == "close":
             view, spec_v, raw_m = (parse_view(answers[ai]), parse_view(answers[ai + 1]),
                                    parse_view(answers[ai + 2]))
-            ai += 3
+            attrs_m = parse_view(answers[ai + 3])
+            ai += 4
             snap = res["snaps"][si]
             si += 1
             if "error" in snap or "error" in snap["dc"]:
                 return "snapshot failed: " + str(snap.get("error") or snap["dc"].get("error"))
-            if answers[ai - 3] != answers[ai - 2]:
+            if answers[ai - 4] != answers[ai - 3]:
                 return "Lean impl view differs from Lean spec view (theorem C01_roundtrip?)"
+            if attrs_m["M"] != attrs_m["MS"]:
+                return "Lean attributes differ from the finite-map spec (theorem C01_metadata_roundtrip?)"
             raw, dc = snap["raw"], snap["dc"]
             mf = {n: [int(t) for t in v.split(",")] for n, v in kv(view["F"]).items()}
             if set(mf) != set(raw["feats"]):
@@ -928,6 +1145,30 @@ def mirror_check(case, res, answers):
             ev = "-" if raw["evcount"] is None else str(raw["evcount"])
             if raw_m["N"] != "-" and raw_m["N"] != ev:
                 return f"event count: file {ev}, model {raw_m['N']}"
+            mb = kv(view.get("B", ""))
+            if set(mb) != set(dc["tables"]):
+                return f"tables: file {sorted(dc['tables'])}, model {sorted(mb)}"
+            for name, desc in mb.items():
+                cols, _, rows = desc.partition(":")
+                cells = [[int(t) for t in r.split(",")] for r in rows.split("/")] if rows else []
+                exp = {c: [float(payload("table", row[i])) for row in cells]
+                       for i, c in enumerate(cols.split(","))}
+                if dc["tables"][name] != exp:
+                    return f"table {name}: file {dc['tables'][name]}, model {exp}"
+            if "TS" in raw_m and kv(raw_m["TS"]) != raw.get("tshapes", {}):
+                return f"table shapes: file {raw.get('tshapes')}, model {raw_m['TS']}"
+            # attributes (raw h5py) and configuration (parse_config) of every key the history wrote
+            dec = lambda w: "".join(chr(int(c)) for c in w.split(".")) if w else ""   # noqa: E731
+            mm = {":".join(dec(x) for x in k.split(":")): v for k, v in kv(attrs_m["M"]).items()}
+            mr = {":".join(dec(x) for x in k.split(":")): v for k, v in kv(attrs_m["MR"]).items()}
+            fa = {k: v for k, v in raw.get("attrs", {}).items() if k in mkeys}
+            if mm != fa:
+                k = sorted(set(mm.items()) ^ set(fa.items()))[0][0]
+                return f"attribute {k}: file {fa.get(k)}, model {mm.get(k)}"
+            fc = {k: v for k, v in dc.get("cfgenc", {}).items() if k in mkeys}
+            if mr != fc:
+                k = sorted(set(mr.items()) ^ set(fc.items()))[0][0]
+                return f"configuration {k}: dclab {fc.get(k)}, model {mr.get(k)}"
     return None
 
 
@@ -1056,10 +1297,26 @@ def run(ctx):
                          "outs": [o[:20] for o in res["outs"][:14]]} if nt else None)
         ctx.stat(f"cb={c['cb']}")
         ctx.stat("ops", len(nops))
+        seen_keys, has_data = {}, True
         for op in nops:
             ctx.stat("op=" + op[0] + (":" + op[1] if op[0] == "open" else ""))
             if op[0] == "feat":
                 ctx.stat("kind=" + ("empty" if not op[2] else op[1]))
+            if op[0] == "open":
+                has_data = False
+            elif op[0] in ("feat", "trace", "contour"):
+                has_data = True
+            elif op[0] == "close" and not has_data:
+                ctx.stat("session=without-data-calls")
+            elif op[0] == "meta":
+                for sec, key, val in meta_entries(meta_of(op)):
+                    if (sec, key) in seen_keys:
+                        prev = seen_keys[(sec, key)]
+                        same = meta_canon(prev) == meta_canon(val)
+                        ctx.stat("meta-rewrite=" + ("same" if same else "equal-other-type"
+                                                    if not isinstance(prev, str) and not isinstance(val, str)
+                                                    and prev == val else "different"))
+                    seen_keys[(sec, key)] = val
         # the property's own oracle
         spec = PySpec()
         si = 0
